@@ -56,6 +56,9 @@ var sdlAdversarial = []string{
 	`extend schema { query: String }`, `extend schema { query: Int mutation: Boolean subscription: Time }`, `extend schema @deprecated { query: ID }`,
 	`extend schema { query: String }` + "\n##next-load##\n" + `type Query { a: Int }`, `extend scalar Time @deprecated extend schema { mutation: Float }`,
 	`union U = ! type Query { a: Int }`, `type Query implements ! { a: Int }`, `type Query @! { a: Int }`, `type Query { a: ! }`, `type Query { a(x: !): Int }`, `input I { a: ! } type Query { a: Int }`,
+	// a directive definition that ends where its locations should begin
+	`type Query { a: Int } directive @zz on`, `directive @zz on`, `directive @zz on |`, `directive @zz on "described" type Query { a: Int }`, "directive @zz on # comment\ntype Query { a: Int }",
+	`directive @zz(a: Int) on | type Query { a: Int @zz }`, `directive @zz on type Query { a: Int }`,
 	`union U = [] type Query { a: Int }`, `type Query implements [!] { a: Int }`, `directive @d(p: !) on FIELD type Query { a: Int }`, `schema { query: ! }`, `extend type ! { a: Int }`,
 	`extend schema @deprecated`, `extend schema`, `extend`, `extend type`, `extend type Nope { a: Int }`, `extend Query { a: Int }`,
 	`type Query { a: Int } extend type Query`, `type Query { a: Int } extend type Query { a: Int }`, `type Query { a: Int } extend enum Query { A }`,
